@@ -9,8 +9,8 @@
   These two functions instantiate the `Libs.dumps/loads` parameters of TmVerif.Codec.Payload in the
   driver, and model `json.dumps/json.loads` of the Partition `data` field in TmVerif.Codec.Ldap; the
   correspondence run checks them against Python's `json` on every generated value and on a malformed
-  stream.  Their round trip `loads (dumps v) = some v` is NOT proved here: the payload theorems take
-  it as the hypothesis about the library, the LDAP theorems as `DictOK` for the one dict-typed field.
+  stream.  TmVerif.Codec.JsonProof proves their round trip `loads (dumps v) = some v` for every value
+  without floats whose dictionary keys are strictly increasing (`canonB`).
 -/
 import TmVerif.Codec.Dec
 
